@@ -52,6 +52,23 @@ TakeFill(s, idx) ==
     ELSE IF \E k \in 1..Len(idx) : idx[k] >= Len(s) THEN Err("IndexError")
     ELSE IF \E k \in 1..Len(idx) : idx[k] < -1 THEN Err("ValueError")
     ELSE OK([k \in 1..Len(idx) |-> IF idx[k] = -1 THEN NullIx ELSE s[idx[k] + 1]])
+(* ---- derivations pandas builds on top of take / concat / isna (Series.shift, repeat, dropna, fillna; array insert / delete) ---- *)
+Shift(s, k) == LET n == Len(s) IN
+               OK([i \in 1..n |-> IF i - k >= 1 /\ i - k <= n THEN s[i - k] ELSE NullIx])
+Repeat(s, r) == OK([i \in 1..(r * Len(s)) |-> s[((i - 1) \div r) + 1]])
+DropNa(s) == OK(SelectSeq(s, LAMBDA e : e # NullIx))
+FillNa(s, v) == OK([i \in 1..Len(s) |-> IF s[i] = NullIx THEN v ELSE s[i]])
+(* array.insert(loc, item): loc in -n..n (negative counts from the end), else IndexError *)
+Insert(s, loc, v) == LET n == Len(s)
+                         p == IF loc < 0 THEN loc + n ELSE loc
+                     IN IF loc < -n \/ loc > n THEN Err("IndexError")
+                        ELSE OK(SubSeq(s, 1, p) \o <<v>> \o SubSeq(s, p + 1, n))
+(* array.delete(positions): positions a set of valid 0-based positions *)
+Delete(s, P) == IF \E q \in P : q >= Len(s) \/ q < -Len(s) THEN Err("IndexError")
+                ELSE LET W == {IF q < 0 THEN q + Len(s) ELSE q : q \in P}
+                         RECURSIVE Keep(_)
+                         Keep(i) == IF i > Len(s) THEN <<>> ELSE (IF (i - 1) \in W THEN <<>> ELSE <<s[i]>>) \o Keep(i + 1)
+                     IN OK(Keep(1))
 Concat(s, t) == OK(s \o t)
 Same(s) == OK(s)                      \* copy, pickle round trip, iteration, Series wrap
 =============================================================================
